@@ -9,7 +9,10 @@
 //         * every thread's Tracer::GetCurrentSpan(),
 //         * GetValue / HasKey of EVERY key on EVERY context created so far,
 //         * the boolean returned by Detach
-//       are compared with the expectation computed by the spec.  One JSON result line per behaviour.
+//       are compared with the expectation computed by the spec.  `Drop` steps destroy the harness's
+//       handle to a context (the real object dies when nothing else refers to it); only LIVE handles
+//       are re-read.  One JSON result line per behaviour.  A watchdog (C10_WATCHDOG_S, default 20 s
+//       per behaviour) turns a hang of the real code into a {"hang":true,"step":i} line + exit 3.
 //
 //   record <seed> <nexec> <nthreads> <maxops> <nk>
 //       Several OS threads run independent seeded random programs CONCURRENTLY (deep stacks, up to
@@ -35,6 +38,8 @@
 #include <nlohmann/json.hpp>
 
 #include <atomic>
+#include <chrono>
+#include <unistd.h>
 #include <condition_variable>
 #include <cstring>
 #include <fstream>
@@ -242,12 +247,57 @@ private:
   std::thread th_;
 };
 
-// identity of a context among the known ones: (smallest matching id, number of matches)
-static std::pair<int, int> Identify(const Context &c, const std::vector<Context> &known)
+// A hang of the code under test must not hang the check: after `seconds` without disarm() the
+// callback prints what is known and the process leaves with status 3.
+class Watchdog
+{
+public:
+  std::atomic<long> id{-1}, step{-1};
+  std::function<void()> on_fire;
+  Watchdog()
+  {
+    const char *e = getenv("C10_WATCHDOG_S");
+    seconds_      = e ? atol(e) : 20;
+    std::thread([this] {
+      for (;;)
+      {
+        std::this_thread::sleep_for(std::chrono::milliseconds(100));
+        long d = deadline_.load();
+        if (d != 0 && now() > d)
+        {
+          if (on_fire)
+            on_fire();
+          _exit(3);
+        }
+      }
+    }).detach();
+  }
+  void arm(long i)
+  {
+    id   = i;
+    step = -1;
+    deadline_ = now() + seconds_ * 1000;
+  }
+  void disarm() { deadline_ = 0; }
+
+private:
+  static long now()
+  {
+    return static_cast<long>(std::chrono::duration_cast<std::chrono::milliseconds>(
+                                 std::chrono::steady_clock::now().time_since_epoch())
+                                 .count());
+  }
+  std::atomic<long> deadline_{0};
+  long seconds_;
+};
+static Watchdog *g_wd = nullptr;
+
+// identity of a context among the LIVE handles: (smallest matching id, number of matches)
+static std::pair<int, int> Identify(const Context &c, const std::vector<Context> &known, const std::vector<char> &live)
 {
   int first = -1, n = 0;
   for (size_t i = 0; i < known.size(); ++i)
-    if (known[i] == c)
+    if (live[i] && known[i] == c)
     {
       if (first < 0)
         first = static_cast<int>(i);
@@ -275,7 +325,9 @@ static bool ReplayOne(const json &beh, Mismatch &mm, long &checks)
   vals.variant = beh.value("vv", 0);
 
   std::vector<Context> ctxs;  // index = spec id; 0 = the empty context
+  std::vector<char> live;     // does the program still hold the handle ctxs[id]?
   ctxs.emplace_back();
+  live.push_back(1);
   std::map<int, std::vector<nostd::unique_ptr<Token>>> toks;
   std::map<int, std::unique_ptr<trace::Scope>> scopes;
   bool ok = true;
@@ -289,6 +341,8 @@ static bool ReplayOne(const json &beh, Mismatch &mm, long &checks)
       const json &st       = steps[i];
       const std::string op = st.at("op").get<std::string>();
       const int t          = st.at("t").get<int>();
+      if (g_wd)
+        g_wd->step = static_cast<long>(i);
       auto fail            = [&](const std::string &what, const json &e, const json &g) {
         if (ok)
         {
@@ -315,6 +369,7 @@ static bool ReplayOne(const json &beh, Mismatch &mm, long &checks)
               made = RuntimeContext::SetValue(kb.view(), v);
           }
           ctxs.push_back(made);
+          live.push_back(1);
         }
         else if (op == "SetValues")
         {
@@ -371,6 +426,7 @@ static bool ReplayOne(const json &beh, Mismatch &mm, long &checks)
             }
           }
           ctxs.push_back(made);
+          live.push_back(1);
         }
         else if (op == "Attach")
         {
@@ -404,10 +460,19 @@ static bool ReplayOne(const json &beh, Mismatch &mm, long &checks)
           else
             scopes[st.at("n").get<int>()].reset(new trace::Scope(trace::Tracer::WithActiveSpan(sp)));
           ctxs.push_back(RuntimeContext::GetCurrent());
+          live.push_back(1);
         }
         else if (op == "ScopeExit")
         {
           scopes.erase(st.at("c").get<int>());
+        }
+        else if (op == "Drop")
+        {
+          // the program lets go of its handle: the real object dies unless a stack slot, a token, a
+          // scope or (through shared list nodes) nothing else keeps it
+          size_t c = st.at("c").get<size_t>();
+          ctxs.at(c) = Context();
+          live.at(c) = 0;
         }
         else if (op == "End")
         {
@@ -425,11 +490,13 @@ static bool ReplayOne(const json &beh, Mismatch &mm, long &checks)
       {
         workers[static_cast<size_t>(u - 1)]->run([&] {
           Context cur = RuntimeContext::GetCurrent();
-          auto id     = Identify(cur, ctxs);
+          auto id     = Identify(cur, ctxs, live);
           int ecur    = st.at("cur")[static_cast<size_t>(u - 1)].get<int>();
           ++checks;
-          if (id.first != ecur || id.second != 1)
-            fail("GetCurrent() identity on thread " + std::to_string(u), ecur,
+          // a current context whose handle was dropped compares equal to no live handle
+          bool held = live.at(static_cast<size_t>(ecur)) != 0;
+          if (held ? (id.first != ecur || id.second != 1) : (id.second != 0))
+            fail("GetCurrent() identity on thread " + std::to_string(u), held ? json(ecur) : json("none (handle dropped)"),
                  json{{"id", id.first}, {"matches", id.second}});
           int sp = vals.span_of(trace::Tracer::GetCurrentSpan());
           int es = st.at("span")[static_cast<size_t>(u - 1)].get<int>();
@@ -463,10 +530,19 @@ static bool ReplayOne(const json &beh, Mismatch &mm, long &checks)
           fail("number of contexts", tab.size(), ctxs.size() - 1);
           return;
         }
+        const json &lv = st.at("live");
         for (size_t c = 1; ok && c < ctxs.size(); ++c)
         {
-          if (Identify(ctxs[c], ctxs) != std::make_pair(static_cast<int>(c), 1))
-            fail("context " + std::to_string(c) + " is not a distinct identity", 1, Identify(ctxs[c], ctxs).second);
+          if (lv[c - 1].get<bool>() != (live[c] != 0))
+          {
+            fail("harness: live-handle bookkeeping differs from the spec for context " + std::to_string(c), lv[c - 1],
+                 live[c] != 0);
+            return;
+          }
+          if (!live[c])
+            continue;
+          if (Identify(ctxs[c], ctxs, live) != std::make_pair(static_cast<int>(c), 1))
+            fail("context " + std::to_string(c) + " is not a distinct identity", 1, Identify(ctxs[c], ctxs, live).second);
           for (int k = 1; ok && k <= nk; ++k)
           {
             KeyBuf kb(KeyBytes(k, kv));
@@ -500,6 +576,10 @@ static bool ReplayOne(const json &beh, Mismatch &mm, long &checks)
 
 static int Replay(const char *path)
 {
+  g_wd          = new Watchdog();
+  g_wd->on_fire = [] {
+    std::cout << json{{"beh", g_wd->id.load()}, {"hang", true}, {"step", g_wd->step.load()}}.dump() << std::endl;
+  };
   std::ifstream in(path);
   std::string line;
   while (std::getline(in, line))
@@ -509,7 +589,9 @@ static int Replay(const char *path)
     json beh = json::parse(line);
     Mismatch mm{};
     long checks = 0;
-    bool ok     = ReplayOne(beh, mm, checks);
+    g_wd->arm(beh.at("id").get<long>());
+    bool ok = ReplayOne(beh, mm, checks);
+    g_wd->disarm();
     json out;
     out["beh"]    = beh.at("id");
     out["ok"]     = ok;
@@ -539,6 +621,7 @@ struct Known
   Context ctx;
   int id;                     // global id (0 = empty)
   std::vector<int> lastvals;  // last logged answers, index k-1; -2 = never logged
+  bool dead = false;          // handle dropped (ctx reset): never looked at again
 };
 
 struct Prog
@@ -548,6 +631,7 @@ struct Prog
   Values *vals;
   std::mt19937_64 rng;
   std::vector<Known> known;  // pool + own
+  size_t npool = 0;          // known[0..npool) are copies of the shared pool (never dropped)
   std::vector<std::pair<int, nostd::unique_ptr<Token>>> toks;   // (global ctx id, token) own tokens
   std::vector<std::pair<int, Token *>> foreign;                 // tokens owned by the main thread
   std::vector<std::pair<int, std::unique_ptr<trace::Scope>>> scopes;
@@ -562,12 +646,18 @@ struct Prog
     Context cur = RuntimeContext::GetCurrent();
     int first = -1, n = 0;
     for (auto &k : known)
-      if (k.ctx == cur)
+      if (!k.dead && k.ctx == cur)
       {
         if (first < 0)
           first = static_cast<int>(&k - &known[0]);
         ++n;
       }
+    json cv = json::array();  // the current context through RuntimeContext::GetValue(key)
+    for (int key = 1; key <= nk; ++key)
+    {
+      KeyBuf kb(KeyBytes(key, kv));
+      cv.push_back(vals->abs(RuntimeContext::GetValue(kb.view())));
+    }
     std::lock_guard<std::mutex> lk(g_log_m);
     if (creates >= 0)
     {
@@ -575,14 +665,15 @@ struct Prog
       ev["n"]                                 = g_next_id;
     }
     ev["t"]    = t;
-    ev["cur"]  = first < 0 ? -1 : known[static_cast<size_t>(first)].id;
+    ev["cur"]  = first < 0 ? 0 : known[static_cast<size_t>(first)].id;  // (0, 0): equal to no live handle
     ev["curn"] = n;
+    ev["cv"]   = cv;
     ev["span"] = vals->span_of(trace::Tracer::GetCurrentSpan());
     // re-read the whole table; log what differs from the last logged answer
     json d = json::array();
     for (auto &k : known)
     {
-      if (k.id == 0)
+      if (k.id == 0 || k.dead)
         continue;
       for (int key = 1; key <= nk; ++key)
       {
@@ -602,6 +693,17 @@ struct Prog
     g_log.push_back(ev.dump());
   }
 
+  // a live handle (pool or own); there always is one (index 0 = the empty context)
+  Known &pick_live()
+  {
+    for (;;)
+    {
+      Known &k = known[static_cast<size_t>(pick(known.size()))];
+      if (!k.dead)
+        return k;
+    }
+  }
+
   int add_known(const Context &c)
   {
     known.push_back(Known{c, -1, std::vector<int>(static_cast<size_t>(nk), -2)});
@@ -610,12 +712,29 @@ struct Prog
 
   void step(bool grow)
   {
-    int r = pick(100);
+    int r = pick(108);
     // operation mix: while growing attaches dominate, afterwards detaches do
     int p_set = 18, p_sets = 8, p_att = grow ? 46 : 14, p_scope = grow ? 14 : 6, p_det = grow ? 6 : 40;
+    if (r >= 100)
+    {
+      // drop the handle to one of this thread's own contexts - leaf, middle of a chain or root,
+      // attached or not, scope context or not: whatever the seed says
+      std::vector<size_t> own;
+      for (size_t i = npool; i < known.size(); ++i)
+        if (!known[i].dead)
+          own.push_back(i);
+      if (own.empty())
+        return;
+      Known &k = known[own[static_cast<size_t>(pick(own.size()))]];
+      int id   = k.id;
+      k.ctx    = Context();
+      k.dead   = true;
+      log(json{{"e", "Drop"}, {"c", id}}, -1);
+      return;
+    }
     if (r < p_set)
     {
-      Known &par = known[static_cast<size_t>(pick(known.size()))];
+      Known &par = pick_live();
       int pid    = par.id;
       int k      = 1 + pick(static_cast<size_t>(nk));
       int v      = (pick(5) == 0) ? 100 + 1 + pick(6) : 1 + pick(12);
@@ -631,7 +750,7 @@ struct Prog
     }
     else if (r < p_set + p_sets)
     {
-      Known &par = known[static_cast<size_t>(pick(known.size()))];
+      Known &par = pick_live();
       int pid    = par.id;
       int cnt    = pick(4);
       std::vector<int> keys;
@@ -665,7 +784,7 @@ struct Prog
     }
     else if (r < p_set + p_sets + p_att)
     {
-      Known &k = known[static_cast<size_t>(pick(known.size()))];
+      Known &k = pick_live();
       int id   = k.id;
       toks.emplace_back(id, RuntimeContext::Attach(k.ctx));
       ++depth_est;
@@ -726,6 +845,8 @@ static void RunExec(uint64_t seed, int nthreads, int maxops, int nk)
   int kv       = static_cast<int>(rng() % 4);
   g_log.clear();
   g_next_id = 0;
+  if (g_wd)
+    g_wd->arm(static_cast<long>(seed % 1000000));
   int mainT = nthreads + 1;
   g_log.push_back(json{{"e", "Cfg"}, {"nt", nthreads}, {"nk", nk}, {"kv", kv}, {"seed", seed}}.dump());
 
@@ -757,6 +878,7 @@ static void RunExec(uint64_t seed, int nthreads, int maxops, int nk)
     Prog &p = *progs.back();
     for (auto &k : mainp.known)
       p.known.push_back(Known{k.ctx, k.id, k.lastvals});
+    p.npool = p.known.size();
     for (auto &tk : mainp.toks)
       p.foreign.emplace_back(tk.first, tk.second.get());
   }
@@ -769,13 +891,24 @@ static void RunExec(uint64_t seed, int nthreads, int maxops, int nk)
       ++go;
       while (go.load() < nthreads)
         std::this_thread::yield();
-      int target = 3 + p.pick(static_cast<size_t>(maxops / 2));  // depth aimed at while growing
+      // grow to a target depth, unwind for a while, grow again, ... (shrink-after-growth histories)
+      int target = 3 + p.pick(static_cast<size_t>(maxops / 3));  // attaches aimed at while growing
       int nops   = maxops / 2 + p.pick(static_cast<size_t>(maxops / 2 + 1));
       bool grow  = true;
+      int shrink_left = 0;
       for (int i = 0; i < nops; ++i)
       {
         if (grow && p.depth_est >= target)
-          grow = false;
+        {
+          grow        = false;
+          shrink_left = 8 + p.pick(30);
+        }
+        else if (!grow && --shrink_left <= 0)
+        {
+          grow        = true;
+          p.depth_est = 0;
+          target      = 3 + p.pick(static_cast<size_t>(maxops / 4));
+        }
         p.step(grow);
       }
       // leave with scopes and tokens still alive: they are destroyed with the Prog, on the main
@@ -788,6 +921,8 @@ static void RunExec(uint64_t seed, int nthreads, int maxops, int nk)
   mainp.log(json{{"e", "Detach"}, {"c", mainp.toks.back().first},
                  {"ok", RuntimeContext::Detach(*mainp.toks.back().second) ? 1 : 0}},
             -1);
+  if (g_wd)
+    g_wd->disarm();
   for (auto &l : g_log)
     std::cout << l << "\n";
   progs.clear();  // tokens/scopes of the workers die on the main thread
@@ -816,6 +951,14 @@ int main(int argc, char **argv)
     int nexec = atoi(argv[3]), nthreads = atoi(argv[4]), maxops = atoi(argv[5]), nk = atoi(argv[6]);
     if (nk > kMaxKeys || nk < 1 || nthreads < 1 || nthreads > 7)
       return 2;
+    // a thread stuck inside the code under test: print what was logged so far and leave with 3
+    g_wd          = new Watchdog();
+    g_wd->on_fire = [] {
+      std::lock_guard<std::mutex> lk(rec::g_log_m);
+      for (auto &l : rec::g_log)
+        std::cout << l << "\n";
+      std::cout << json{{"e", "Hang"}}.dump() << std::endl;
+    };
     for (int i = 0; i < nexec; ++i)
       rec::RunExec(seed * 1000003ull + static_cast<uint64_t>(i), nthreads, maxops, nk);
     std::cout.flush();
